@@ -664,3 +664,63 @@ func bytesContains(b, n []byte) bool {
 	}
 	return false
 }
+
+// VerifOpenData decrypts an encoded (unfragmented) data message with the keys the conversation holds
+// for the key pair named in the message, without checking the MAC and without changing any state, and
+// returns the raw plaintext (message, NUL and TLV bytes, not dissected).
+// own = true: the conversation is the sender of the message (sending AES key of pair
+// (senderKeyID, recipientKeyID)); own = false: it is the addressee (receiving AES key).
+func VerifOpenData(c *Conversation, wire []byte, own bool) ([]byte, bool) {
+	msg, err := decode(encodedMessage(wire))
+	if err != nil || c.version == nil {
+		return nil, false
+	}
+	hl := otrv2HeaderLen
+	if c.version.protocolVersion() == 3 {
+		hl = otrv3HeaderLen
+	}
+	if len(msg) < hl || msg[2] != msgTypeData {
+		return nil, false
+	}
+	d := dataMsg{}
+	if d.deserialize(msg[hl:], c.version) != nil {
+		return nil, false
+	}
+	var sk sessionKeys
+	if own {
+		sk, err = c.keys.deriveDHSessionKeys(d.senderKeyID, d.recipientKeyID, c.version)
+	} else {
+		sk, err = c.keys.deriveDHSessionKeys(d.recipientKeyID, d.senderKeyID, c.version)
+	}
+	if err != nil {
+		return nil, false
+	}
+	defer sk.unlock()
+	key := sk.receivingAESKey
+	if own {
+		key = sk.sendingAESKey
+	}
+	var iv [16]byte
+	copy(iv[:], d.topHalfCtr[:])
+	out := make([]byte, len(d.encryptedMsg))
+	if counterEncipher(key, iv[:], d.encryptedMsg, out) != nil {
+		return nil, false
+	}
+	return out, true
+}
+
+// VerifDataFlag returns the flags byte of an encoded (unfragmented) data message.
+func VerifDataFlag(wire []byte) (byte, bool) {
+	msg, err := decode(encodedMessage(wire))
+	if err != nil || len(msg) < 3 {
+		return 0, false
+	}
+	hl := otrv2HeaderLen
+	if DeserializeShort(msg) == 3 {
+		hl = otrv3HeaderLen
+	}
+	if len(msg) <= hl || msg[2] != msgTypeData {
+		return 0, false
+	}
+	return msg[hl], true
+}
